@@ -53,9 +53,28 @@ CosFloor(o, n, m, lo, hi) ==
   ELSE LET mid == (lo + hi + 1) \div 2
        IN  IF BigCmp(BigProd(<<mid, mid, n, m>>), BigProd(<<10000, 10000, o, o>>)) <= 0
            THEN CosFloor(o, n, m, mid, hi) ELSE CosFloor(o, n, m, lo, mid - 1)
-CosR4Set(o, n, m) ==
+CosR4SetBig(o, n, m) ==
   LET f == CosFloor(o, n, m, 0, 10000)
   IN  {s \in {f, f + 1} : s <= 10000 /\ CosScoreOK(o, n, m, s)}
+
+(* the same set with 32-bit integer arithmetic, valid when o <= 4 and n m <= 16 (all products     *)
+(* stay below 2^31): s is admissible iff (s - 1/2)^2 nm <= 10^8 o^2 <= (s + 1/2)^2 nm, i.e.        *)
+(* (s^2 - s) nm + nm/4 <= 10^8 o^2 <= (s^2 + s) nm + nm/4                                         *)
+RECURSIVE CosFloorSmall(_, _, _, _, _)
+CosFloorSmall(o, n, m, lo, hi) ==
+  IF lo = hi THEN lo
+  ELSE LET mid == (lo + hi + 1) \div 2
+       IN  IF mid * mid * n * m <= 100000000 * o * o
+           THEN CosFloorSmall(o, n, m, mid, hi) ELSE CosFloorSmall(o, n, m, lo, mid - 1)
+CosScoreOKSmall(o, n, m, s) ==
+  LET nm == n * m   t == 100000000 * o * o IN
+  /\ (s = 0 \/ 4 * (t - (s * s - s) * nm) >= nm)  \* (2s-1)^2 nm <= 4 t  (the difference is small near the root)
+  /\ 4 * (t - (s * s + s) * nm) <= nm            \* 4 t <= (2s+1)^2 nm
+CosR4SetSmall(o, n, m) ==
+  LET f == CosFloorSmall(o, n, m, 0, 10000)
+  IN  {s \in {f, f + 1} : s <= 10000 /\ CosScoreOKSmall(o, n, m, s)}
+
+CosR4Set(o, n, m) == IF o <= 4 /\ n * m <= 16 THEN CosR4SetSmall(o, n, m) ELSE CosR4SetBig(o, n, m)
 
 Score4Set(meas, x, y) ==
   IF meas = "COSINE" THEN CosR4Set(Ov(x, y), Cardinality(x), Cardinality(y))
